@@ -16,18 +16,17 @@ var Layouts = []geom.Layout{geom.XY, geom.XYZ, geom.XYM, geom.XYZM, geom.Layout(
 
 // AnyLayout picks one of ls (enumerated).
 func AnyLayout(name string, ls []geom.Layout) geom.Layout {
-	i := sym.Concretize(sym.Int(name, 0, len(ls)-1))
-	return ls[i]
+	return ls[sym.Choose(name, 0, len(ls)-1)]
 }
 
 // Count is a symbolic count in [lo,hi], enumerated.
 func Count(name string, lo, hi int) int {
-	return sym.Concretize(sym.Int(name, lo, hi))
+	return sym.Choose(name, lo, hi)
 }
 
 // Flat returns n symbolic ordinates.
 func Flat(prefix string, n int) []float64 {
-	if n == 0 && sym.Bool(prefix+".nil") {
+	if n == 0 && sym.Flip(prefix+".nil") {
 		return nil
 	}
 	f := make([]float64, n)
@@ -73,7 +72,7 @@ func PolygonWF(prefix string, lay geom.Layout, maxRings, maxCoords int) *geom.Po
 	stride := lay.Stride()
 	flat := Flat(prefix+".c", total(shape)*stride)
 	var ends []int
-	if len(shape) > 0 || !sym.Bool(prefix+".endsnil") {
+	if len(shape) > 0 || !sym.Flip(prefix+".endsnil") {
 		ends = Ends2(shape, stride, 0)
 	}
 	return geom.NewPolygonFlat(lay, flat, ends)
@@ -85,7 +84,7 @@ func MultiLineStringWF(prefix string, lay geom.Layout, maxLines, maxCoords int) 
 	stride := lay.Stride()
 	flat := Flat(prefix+".c", total(shape)*stride)
 	var ends []int
-	if len(shape) > 0 || !sym.Bool(prefix+".endsnil") {
+	if len(shape) > 0 || !sym.Flip(prefix+".endsnil") {
 		ends = Ends2(shape, stride, 0)
 	}
 	return geom.NewMultiLineStringFlat(lay, flat, ends)
@@ -105,7 +104,7 @@ func LinearRingWF(prefix string, lay geom.Layout, maxCoords int) *geom.LinearRin
 
 // PointWF is an arbitrary well-formed Point (possibly empty).
 func PointWF(prefix string, lay geom.Layout) *geom.Point {
-	if sym.Bool(prefix + ".empty") {
+	if sym.Flip(prefix + ".empty") {
 		return geom.NewPointEmpty(lay)
 	}
 	return geom.NewPointFlat(lay, Flat(prefix+".c", lay.Stride()))
@@ -117,13 +116,13 @@ func MultiPointWF(prefix string, lay geom.Layout, maxPoints int) *geom.MultiPoin
 	stride := lay.Stride()
 	shape := make([]int, n)
 	for i := range shape {
-		if sym.Bool(sym.N(prefix+".has", i)) {
+		if sym.Flip(sym.N(prefix+".has", i)) {
 			shape[i] = 1
 		}
 	}
 	flat := Flat(prefix+".c", total(shape)*stride)
 	var ends []int
-	if n > 0 || !sym.Bool(prefix+".endsnil") {
+	if n > 0 || !sym.Flip(prefix+".endsnil") {
 		ends = Ends2(shape, stride, 0)
 	}
 	return geom.NewMultiPointFlat(lay, flat, geom.NewMultiPointFlatOptionWithEnds(ends))
@@ -146,7 +145,7 @@ func MultiPolygonWF(prefix string, lay geom.Layout, maxPolys, maxRings, maxCoord
 		endss = make([][]int, np)
 		off := 0
 		for i, sh := range shapes {
-			if len(sh) == 0 && sym.Bool(sym.N(prefix+".rownil", i)) {
+			if len(sh) == 0 && sym.Flip(sym.N(prefix+".rownil", i)) {
 				endss[i] = nil
 			} else {
 				endss[i] = Ends2(sh, stride, off)
@@ -171,4 +170,178 @@ func total2(shapes [][]int) int {
 		t += total(s)
 	}
 	return t
+}
+
+// ---- comparison helpers (non-forking) ----
+
+// SameFlat: same length (nil-ness ignored) and identical bits.
+func SameFlat(a, b []float64) bool {
+	if len(a) != len(b) {
+		return false
+	}
+	cs := make([]bool, len(a))
+	for i := range a {
+		cs[i] = sym.SameBits(a[i], b[i])
+	}
+	return sym.And(cs...)
+}
+
+func SameInts(a, b []int) bool {
+	if len(a) != len(b) {
+		return false
+	}
+	cs := make([]bool, len(a))
+	for i := range a {
+		cs[i] = sym.EqInt(a[i], b[i])
+	}
+	return sym.And(cs...)
+}
+
+func SameIntss(a, b [][]int) bool {
+	if len(a) != len(b) {
+		return false
+	}
+	cs := make([]bool, len(a))
+	for i := range a {
+		cs[i] = SameInts(a[i], b[i])
+	}
+	return sym.And(cs...)
+}
+
+func CopyFlat(a []float64) []float64 {
+	if a == nil {
+		return nil
+	}
+	c := make([]float64, len(a))
+	copy(c, a)
+	return c
+}
+
+func CopyInts(a []int) []int {
+	if a == nil {
+		return nil
+	}
+	c := make([]int, len(a))
+	copy(c, a)
+	return c
+}
+
+func CopyIntss(a [][]int) [][]int {
+	if a == nil {
+		return nil
+	}
+	c := make([][]int, len(a))
+	for i := range a {
+		c[i] = CopyInts(a[i])
+	}
+	return c
+}
+
+// Snap is an independent deep snapshot of the observable state of a geometry.
+type Snap struct {
+	Layout geom.Layout
+	Stride int
+	SRID   int
+	Flat   []float64
+	Ends   []int
+	Endss  [][]int
+}
+
+func SnapOf(g geom.T) Snap {
+	return Snap{Layout: g.Layout(), Stride: g.Stride(), SRID: g.SRID(), Flat: CopyFlat(g.FlatCoords()), Ends: CopyInts(g.Ends()), Endss: CopyIntss(g.Endss())}
+}
+
+// SameSnap: layout, stride, flat bits, ends, endss all equal (SRID compared separately).
+func SameSnap(a, b Snap) bool {
+	if a.Layout != b.Layout || a.Stride != b.Stride {
+		return false
+	}
+	return sym.And(SameFlat(a.Flat, b.Flat), SameInts(a.Ends, b.Ends), SameIntss(a.Endss, b.Endss))
+}
+
+// Rebase returns ends shifted by -off.
+func Rebase(ends []int, off int) []int {
+	out := make([]int, len(ends))
+	for i, e := range ends {
+		out[i] = e - off
+	}
+	return out
+}
+
+// WellFormed is the structural invariant of property C01, written over the public accessors only.
+// level: 0 point, 1 linestring/ring, 2 polygon/multilinestring/multipoint, 3 multipolygon.
+func WellFormed(g geom.T, level int) bool {
+	stride := g.Stride()
+	if stride != g.Layout().Stride() {
+		return false
+	}
+	flat := g.FlatCoords()
+	if stride == 0 {
+		return len(flat) == 0 && len(g.Ends()) == 0 && len(g.Endss()) == 0
+	}
+	if len(flat)%stride != 0 {
+		return false
+	}
+	switch level {
+	case 0:
+		return len(flat) == 0 || len(flat) == stride
+	case 1:
+		return true
+	case 2:
+		off := 0
+		for _, e := range g.Ends() {
+			if e%stride != 0 || e < off {
+				return false
+			}
+			off = e
+		}
+		return off == len(flat)
+	default:
+		off := 0
+		for _, ends := range g.Endss() {
+			for _, e := range ends {
+				if e%stride != 0 || e < off {
+					return false
+				}
+				off = e
+			}
+		}
+		return off == len(flat)
+	}
+}
+
+// SameCoords1 compares nested coordinates bit for bit (nil and empty coordinate treated alike unless strictNil).
+func SameCoord(a, b geom.Coord) bool { return SameFlat(a, b) }
+
+func SameCoords1(a, b []geom.Coord) bool {
+	if len(a) != len(b) {
+		return false
+	}
+	cs := make([]bool, len(a))
+	for i := range a {
+		cs[i] = SameCoord(a[i], b[i])
+	}
+	return sym.And(cs...)
+}
+
+func SameCoords2(a, b [][]geom.Coord) bool {
+	if len(a) != len(b) {
+		return false
+	}
+	cs := make([]bool, len(a))
+	for i := range a {
+		cs[i] = SameCoords1(a[i], b[i])
+	}
+	return sym.And(cs...)
+}
+
+func SameCoords3(a, b [][][]geom.Coord) bool {
+	if len(a) != len(b) {
+		return false
+	}
+	cs := make([]bool, len(a))
+	for i := range a {
+		cs[i] = SameCoords2(a[i], b[i])
+	}
+	return sym.And(cs...)
 }
